@@ -57,6 +57,7 @@ pub fn parse_integer(
 fn parse_integer_with_error(signed: bool, input: TokenStream) -> Result<(Sign, UBig), ParseError> {
     let mut val: Option<_> = None;
     let mut neg = false;
+    let mut signed_marked = false;
     let mut base_marked = false;
     let mut base: Option<_> = None;
 
@@ -82,6 +83,11 @@ fn parse_integer_with_error(signed: bool, input: TokenStream) -> Result<(Sign, U
                 }
             }
             TokenTree::Punct(punct) => {
+                // only one sign is allowed
+                if signed_marked {
+                    return Err(ParseError::InvalidDigit);
+                }
+                signed_marked = true;
                 if val.is_none() && punct.as_char() == '-' {
                     if signed {
                         neg = true;
